@@ -64,7 +64,12 @@ MCInit ==
   \/ /\ Family = "cdn"
      /\ \E sc \in CdnScripts : InitWith(DefaultPol, sc) /\ meta = [fam |-> "cdn", env |-> NoEnv]
 
-MCNext == Next /\ UNCHANGED meta
+\* one named disjunct per action of the machine, so that TLC's coverage reports them separately
+MC_Call     == Call /\ UNCHANGED meta
+MC_Sleep    == Sleep /\ UNCHANGED meta
+MC_Return   == Return /\ UNCHANGED meta
+MC_DevPanic == DevPanic /\ UNCHANGED meta      \* disabled by design while KnownDeviations = {}
+MCNext == MC_Call \/ MC_Sleep \/ MC_Return \/ MC_DevPanic
 
 Program ==
   CASE meta.fam = "exec" ->
